@@ -457,4 +457,7 @@ def edge_schema():
     m.groups.append(g)
     g = Group("onlydata", 13, "dim"); g.data.append(Data("d", 14, "vd")); m.groups.append(g)
     s.messages.append(m)
+    s.messages.append(Message("E5", 5))                      # heartbeat: header only, blockLength 0
+    m = Message("E6", 6); m.fields.append(Field("k", 1, "K16")); s.messages.append(m)   # constants only, blockLength 0
+    m = Message("E7", 7); m.groups.append(Group("hollow", 10, "dim")); s.messages.append(m)  # header + one member-less group
     return s
